@@ -24,7 +24,7 @@ THEOREMS = {
     'C05': [('ChessVerif.Props.C05', ['Chess.Props.C05_bestmove', 'Chess.Props.C05_bestmove_generated', 'Chess.Props.C05_pv_legal'])],
     'C06': [('ChessVerif.Props.C06', ['Chess.Props.C06_one_bestmove', 'Chess.Props.C06_stop_not_lost', 'Chess.Props.C06_isready', 'Chess.Props.C06_race_free'])],
     'C07': [('ChessVerif.Props.C07', ['Chess.Props.C07_repetition_keys', 'Chess.Props.C07_repetition', 'Chess.Props.C07_rule50', 'Chess.Props.C07_draw', 'Chess.Props.C07_mate_stalemate',
-                                     'Chess.Props.C07_check', 'Chess.Props.C07_attacked', 'Chess.Props.C07_check_after_move', 'Chess.Props.C07_material']),
+                                     'Chess.Props.C07_check', 'Chess.Props.C07_attacked', 'Chess.Props.C07_check_after_move', 'Chess.Props.C07_material', 'Chess.Props.C07_geometry']),
             ('ChessVerif.Lemmas.OKDec', ['Chess.check_eq_of_hypotheses', 'Chess.material_eq_of_hypotheses'])],
     'C08': [('ChessVerif.Props.C08', ['Chess.Props.C08_distance', 'Chess.Props.C08_printed', 'Chess.Props.C08_ranges_disjoint'])],
     'C09': [('ChessVerif.Props.C09', ['Chess.Props.C09_depths', 'Chess.Props.C09_searchmoves', 'Chess.Props.C09_depth_index'])],
@@ -154,6 +154,15 @@ def uci_glue_extra(pid, then=None):
     return f
 
 
+def uci_book_extra(pid):
+    def f(ctx):
+        import uci_glue
+        n = uci_glue.run_book(ctx, pid, 8 if ctx.tier == 'quick' else 120)
+        ctx.cov['rule'] += (f'; plus {n} sessions over the REAL UCI loop with an opening book written for the game (setoption Polyglot Book, position / moves / '
+                            'ucinewgame, go): the book move with the highest weight must be answered without a search (tools/uci_glue.py)')
+    return f
+
+
 def perft_extra(depth_quick, depth_thorough):
     def f(ctx):
         fens = [l.strip() for l in open(CORPUS) if l.strip() and not l.startswith('#')]
@@ -269,7 +278,7 @@ def check_C17(ctx):
 def check_C18(ctx):
     return play_family(ctx, 'Polyglot key', state_fields(['poly']), state_fields(['poly']), SZ,
                        'theorems in Props/C18.lean + differential on PolyglotBook::hash after every op; the spec is the published definition over the '
-                       'committed Random64 array', assumptions=['provenance of Random64 (Spec/Random64.lean header)'])
+                       'committed Random64 array', extra=uci_book_extra('C18'), assumptions=['provenance of Random64 (Spec/Random64.lean header)'])
 
 
 def line_proj(prefixes):
@@ -696,6 +705,7 @@ def check_C19(ctx):
     ctx.count('books', len(books))
     ctx.count('picks', len(plan))
     hunt_if_needed(ctx, ok, 'book', lambda: None)
+    uci_book_extra('C19')(ctx)
     return V.finish(ctx, 'proof', thm('C19'),
                     'C19_load (for every byte string the book is exactly the decoded complete records, in order), C19_best, C19_random (move i is picked iff the '
                     'residue lies in its weight interval; never weight 0), C19_decode; correspondence on loaded contents and on both policies with replayed residues',
